@@ -35,8 +35,6 @@ import (
 func TestSim(t *testing.T) {
 	hysim.Main(t,
 		&hysim.Harness{Name: "c03realm", Gen: genC03Realm, Exec: execC03Realm},
-		// the same workload in a race-detector build (part c03realmrace)
-		&hysim.Harness{Name: "c03realmrace", Gen: genC03Realm, Exec: execC03Realm},
 	)
 }
 
